@@ -34,6 +34,8 @@ def scenarios(tier):
     nogrow = [("write", "d2", "B", 1900, 0)]
     split = Config(levels=1, ndisks=2, splits={0: 2}, parity_limit=6144, contents=["c0/content", "c1/content"])
     sc += [("adds-nogrow-split", split, base, nogrow, True, ()), ("adds-nogrow-split-E", split, base, nogrow, True, ("-E",))]
+    # ... and the only pending change is a file taken for a COPY of a file of the other disk (hashes inherited, blocks recorded as such)
+    sc += [("copy-nogrow-split", split, base, [("cp", "d1", "A", "d2", "A")], True, ())]
     if tier == "thorough":
         sc += [("adds", Config(levels=3, ndisks=2, splits={0: 2, 1: 2, 2: 2}, parity_limit=4096), base, adds, True, ()),
                ("mixed", Config(levels=6, ndisks=2), base, mixed, False, ()),
@@ -113,8 +115,23 @@ def crash_oracle(L, cfg, pre_tree, pre_content, adds_only, graceful, where, call
                 if b is None or a[3] != b[3]:
                     bad.append("%s/%s" % (d, sub))
             if bad:
+                # structural signature of a recorded limitation: the crash state's record holds blocks of a file taken for a COPY
+                # (hash inherited, no marker left to say that the position was empty before) in a stripe of every file lost here
+                rep_shared = False
+                try:
+                    L.restore(S)
+                    cc_ = L.content()
+                    rep_pos = {pos for dd in cc_.disks.values() for f in dd.files for st, pos, h in f.blocks if st == C.REP}
+                    per_file = []
+                    for rel in bad:
+                        dn, sub = rel.split("/", 1)
+                        f0 = next((f for f in pre_content.disks[dn.encode()].files if f.sub.decode(errors="surrogateescape") == sub), None)
+                        per_file.append(f0 is not None and any(pos in rep_pos for st, pos, h in f0.blocks))
+                    rep_shared = bool(rep_pos) and all(per_file)
+                except (FileNotFoundError, C.ContentError, KeyError):
+                    pass
                 v.append(dict(kind="synced-file-unrecoverable-meanwhile", where=where, lost=s, files=bad[:4],
-                              fix_rc=r.rc))
+                              fix_rc=r.rc, copy_block_in_every_lost_stripe=rep_shared))
     # (3) sync again completes and re-establishes C01
     L.restore(S)
     r = L.run("sync")
@@ -340,6 +357,9 @@ def run(ctx):
                     key = "C07/torn-parity-write-single-level"
                 elif "-h" in args and r["mode"] == "torn" and cc == "parity-pwrite" and v["kind"] == "synced-file-unrecoverable-meanwhile":
                     key = "C07/torn-parity-write-after-prehash"
+                elif name.startswith("copy-") and v["kind"] == "synced-file-unrecoverable-meanwhile" and v.get("copy_block_in_every_lost_stripe") \
+                        and cfg.levels == 1 and "-h" not in args:
+                    key = "C07/copy-over-empty-position-recorded-before-its-parity"
                 ctx.violation(key, "%s: %s in %s" % (v["kind"], v["where"], label),
                               dict(scenario=name, cfg=cfg.describe(), base=base, pending=pending, args=args, job=j[0],
                                    k=j[1][3], mode=r["mode"], adds_only=adds_only, violation=v))
